@@ -29,7 +29,7 @@ ASSUMPTIONS = [
     'no-mutation are demanded there',
     '+inf labels must be rejected with ValueError (documented)',
 ]
-REQUIRED_COUNTERS = ['reused_warper_unwarp_compared', 'reused_warper_compared', 'default_rank_checked', 'arrays_with_ties_and_nan',
+REQUIRED_COUNTERS = ['gp_designer_multi_metric_pipelines_checked', 'reused_warper_unwarp_compared', 'reused_warper_compared', 'default_rank_checked', 'arrays_with_ties_and_nan',
                      'unwarp_roundtrips', 'no_reversal_checked',
                      'input_snapshot_checked', 'posinf_rejections']
 MIN_DISTINCT = {'quick': 300, 'thorough': 3000}
@@ -352,7 +352,98 @@ def check_reuse(ctx, name, reused, factory, cls, y, index, history):
                   {'reused': [repr(float(v)) for v in a.flatten()][:20], 'fresh': [repr(float(v)) for v in b.flatten()][:20]})
 
 
+def check_gp_designer_layer(ctx, slot, n_cases, replay_case=None):
+  """The label pipeline as the multi-metric GP designer applies it before model fitting:
+  every metric column must be transformed, and later un-warped, exactly as the default
+  pipeline fitted on *that* column alone would (differential against a fresh pipeline)."""
+  from vizier import pyvizier as vz
+  from vizier._src.algorithms.designers import gp_ucb_pe
+  from vizier._src.algorithms.designers.gp import output_warpers as ow
+  rng = ctx.rng(20_000_000 + slot, 'gp-layer')
+  for k in range(n_cases):
+    if replay_case is not None:
+      cols, goals = replay_case['cols'], replay_case['goals']
+    else:
+      n = rng.choice([1, 2, 3, 5, 8, 13, 20])
+      m = rng.choice([1, 2, 2, 3])
+      classes = [rng.choice(['uniform', 'wide', 'dups', 'constant', 'outliers', 'offset', 'lattice', 'altsign'])
+                 for _ in range(m)]
+      cols = []
+      for c in classes:
+        col = []
+        while len(col) < n:
+          col.extend(float(v) for v in gen_array(rng, c).flatten() if np.isfinite(v))
+        cols.append([repr(v) for v in col[:n]])
+      goals = [rng.choice(['MAXIMIZE', 'MINIMIZE']) for _ in range(m)]
+    n, m = len(cols[0]), len(cols)
+    case = {'gp_layer': True, 'cols': cols, 'goals': goals, 'slot': slot}
+    p = vz.ProblemStatement()
+    p.search_space.root.add_float_param('x', 0.0, 1.0)
+    for j, g in enumerate(goals):
+      p.metric_information.append(vz.MetricInformation(f'm{j}', goal=getattr(vz.ObjectiveMetricGoal, g)))
+    trials = []
+    for i in range(n):
+      t = vz.Trial(id=i + 1, parameters={'x': (i + 0.5) / n})
+      t.complete(vz.Measurement(metrics={f'm{j}': float(cols[j][i]) for j in range(m)}))
+      trials.append(t)
+    try:
+      d = gp_ucb_pe.VizierGPUCBPEBandit(p)
+      with np.errstate(all='ignore'):
+        pre = np.asarray(d._converter.to_xy(trials).labels.unpad(), dtype=np.float64)  # pylint: disable=protected-access
+        data = d._trials_to_data(trials)  # pylint: disable=protected-access
+        warped = np.asarray(data.labels.unpad(), dtype=np.float64)
+        warpers = list(d._output_warpers)  # pylint: disable=protected-access
+    except AttributeError as e:
+      ctx.note(f'GP designer label layer not reachable through the attributes known to the harness: {e}')
+      return
+    except Exception as e:  # pylint: disable=broad-except
+      ctx.violation(f'gp-designer-label-pipeline-raised:{type(e).__name__}', f'{type(e).__name__}: {e}'[:300], case)
+      continue
+    ctx.count('gp_designer_label_pipelines_checked')
+    if m > 1:
+      ctx.count('gp_designer_multi_metric_pipelines_checked')
+    if len(warpers) != m or warped.shape != pre.shape:
+      ctx.violation('gp-designer-label-pipeline:shape', f'{len(warpers)} pipelines / labels {warped.shape} for {m} metrics x {n} trials', case)
+      continue
+    for j in range(m):
+      col = pre[:, j:j + 1]
+      try:
+        with np.errstate(all='ignore'):
+          fresh = ow.create_default_warper()
+          fw = np.asarray(fresh.warp(col.copy()), dtype=np.float64)
+          fu = np.asarray(fresh.unwarp(fw.copy()), dtype=np.float64)
+          du = np.asarray(warpers[j].unwarp(warped[:, j:j + 1].copy()), dtype=np.float64)
+      except Exception:  # pylint: disable=broad-except
+        continue
+      # the designer computes in float32: differences are judged against the scale of the column
+      fin = col[np.isfinite(col)]
+      scale = float(np.max(np.abs(fin))) if fin.size else 1.0
+
+      def close(a, b, atol):
+        return a.shape == b.shape and np.array_equal(np.isnan(a), np.isnan(b)) and np.allclose(
+            np.nan_to_num(a, posinf=1e308, neginf=-1e308), np.nan_to_num(b, posinf=1e308, neginf=-1e308), rtol=1e-4, atol=atol)
+      wfin = fw[np.isfinite(fw)]
+      wscale = float(np.max(np.abs(wfin))) if wfin.size else 1.0
+      if not close(warped[:, j:j + 1], fw, 1e-5 * max(wscale, 1e-30)):
+        ctx.violation('gp-designer-label-pipeline:metric-warped-differently-from-default-pipeline',
+                      f'metric {j} of {m}: the designer warps this column differently from the default pipeline fitted on it alone', case,
+                      {'designer': warped[:, j].tolist()[:10], 'fresh': fw.flatten().tolist()[:10]})
+        break
+      if not close(du, fu, 1e-5 * max(scale, 1e-30)):
+        ctx.violation('gp-designer-label-pipeline:metric-unwarped-with-another-fit',
+                      f'metric {j} of {m}: the pipeline the designer keeps for this metric does not invert its own warped labels '
+                      'the way the default pipeline fitted on this column does (it holds the fit of another label set)', case,
+                      {'designer_unwarp': du.flatten().tolist()[:10], 'fresh_unwarp': fu.flatten().tolist()[:10],
+                       'labels': col.flatten().tolist()[:10]})
+        break
+    ctx.case(['gp-layer', m, n, goals], nontrivial=m > 1)
+    if replay_case is not None:
+      return
+
+
 def run_shard(ctx):
+  if ctx.shard in (1, 2) or ctx.tier == 'thorough':
+    check_gp_designer_layer(ctx, ctx.shard, 40 if ctx.tier == 'quick' else 400)
   S = subjects()
   names = sorted(S)
   reused = {name: S[name]() for name in names}
@@ -385,6 +476,9 @@ def run_shard(ctx):
 
 
 def replay(ctx, case):
+  if case.get('gp_layer'):
+    check_gp_designer_layer(ctx, case.get('slot', 0), 1, replay_case=case)
+    return
   S = subjects()
   y = np.array([float(v) for v in case['labels']], dtype=np.float64).reshape(-1, 1)
   if 'class' not in case:
